@@ -111,7 +111,14 @@ def _steps(b, n):
 
         return (bytes(mv[1:4]), bytes(memoryview(b)[n:]), [x for x in iter_bytes(b[:3])], list(map(lambda x, y: x + y, b[:2], b[2:4])), b"".join(map(int.to_bytes, mv[:2])))
 
-    return [s1, s2, s3, s4, s5, s6, s7, s8, s9, s10, s11, s12]
+    def s13():
+        from easynetwork.exceptions import DatagramProtocolParseError, DeserializeError
+
+        e = DeserializeError("Extra data caught", error_info={"packet": b[:2], "extra": b[2:]})
+        e2 = DatagramProtocolParseError(e)
+        return (f"{e}", str(e2), f"x{ValueError(1, 2)}y", f"{OSError(2, 'nope')}", format(KeyError("k")), f"{ValueError()}|{n:>3}|{b[:1]!r}")
+
+    return [s1, s2, s3, s4, s5, s6, s7, s8, s9, s10, s11, s12, s13]
 
 
 def battery(b: bytes, n: int):
